@@ -146,12 +146,17 @@ def main(argv=None):
     if real:
         exit_code = 1
         seen = set()
-        for v in real[:5]:
+        # an input on which the property oracle fails on the implementation is a failing input; a disagreement between
+        # implementation and model (or an internal inconsistency of the machinery) is a tie that no longer checks: when
+        # nothing but such disagreements was found the lines say so (the replay still holds the input and names the comparison)
+        failing = [v for v in real if v["kind"] == "property"]
+        ordered = failing + [v for v in real if v["kind"] != "property"]
+        for v in ordered[:5]:
             path = write_replay(prop, {"property": prop, "what": v["what"], "kind": v["kind"], "case": v["case"], "seed": ctx.seed, "tier": ctx.tier})
             if path in seen:
                 continue
             seen.add(path)
-            out_lines.append(f"VIOLATION property={prop} replay={path}")
+            out_lines.append(f"VIOLATION property={prop} replay={path}" + ("" if failing else " no-failing-input-found"))
     if broken:
         exit_code = 1
         if not real:
